@@ -316,6 +316,22 @@ example :
     let s := run (init .muscle3 .ok 3 "protein") [.setGap (-3) (some (-1)), .setGap (-5) (some 5)]
     s.gap = some (-3, -1) ∧ (step (run s [.start]) (.method "get_command")).2 = .ok "gap=-3/-1" := by decide
 
+/-- **Setters do not interfere with results.**  Whatever combination of setters was applied before the run (in any order:
+`set_distance_matrix`, `set_guide_tree`, `set_gap_penalty`, `set_exec_dir`, …), once `full_matrix_calculation()` was
+requested `get_distance_matrix()` returns the matrix the *program* reported — never the matrix handed in — and
+`get_alignment` / `get_alignment_order` / `get_guide_tree` do not depend on the stored input matrix or penalties. -/
+theorem C20_results_independent_of_input_options (s : St) (d : Bool) (g : Option (Int × Int)) (m : String)
+    (hm : m = "get_distance_matrix" ∨ m = "get_alignment" ∨ m = "get_alignment_order" ∨ m = "get_guide_tree") :
+    getterValue { s with distSet := d, gap := g } m = getterValue s m ∧
+    (s.mbed = false → getterValue s "get_distance_matrix" = .ok (Proto.showNats (List.range s.n))) := by
+  refine ⟨?_, fun hb => by simp [getterValue, hb]⟩
+  rcases hm with rfl | rfl | rfl | rfl <;> simp [getterValue]
+
+example :
+    let s := run (init .clustalo .ok 3 "protein")
+      [.method "set_distance_matrix", .method "full_matrix_calculation", .start, .join .none]
+    s.distSet = true ∧ (step s (.method "get_distance_matrix")).2 = .ok "0,1,2" := by decide
+
 /-! ## Exotic sequence types are mapped onto the amino-acid alphabet and back -/
 
 /-- The model's amino-acid alphabet is `ProteinSequence.alphabet`, `map_sequence` rejects with `>` (strictly larger
